@@ -159,6 +159,7 @@ Proof. vm_compute. split; reflexivity. Qed.
 
 (* ---- Stat.IsBinary is regenerated from utils/convert/stat.go on every run (Gen/C31.v):
    the model's is_binary is exactly that function *)
+From Coq Require Import ZArith.
 From GoGit Require Import Gen.C31 Proofs.C31Leaf.
 Theorem C31_is_binary_tied : forall s,
   convert_Stat_IsBinary (Z.of_N (s_nul s)) (Z.of_N (s_lonecr s)) (Z.of_N (s_lonelf s))
